@@ -68,11 +68,11 @@ class IntervalArray:
         object
             Accessed element.
         """
-        if isinstance(item, int):
+        if isinstance(item, (int, np.integer)):
             return self.a[item]
         elif len(item) == 2:
-            interval = item[0]
-            element = item[1]
+            interval = index(item[0])
+            element = index(item[1])
             return self.a[interval * self.n + element]
         else:
             raise IndexError("too many indices for IntervalArray")
@@ -88,11 +88,11 @@ class IntervalArray:
         value: float
             Value to set for item.
         """
-        if isinstance(key, int):
+        if isinstance(key, (int, np.integer)):
             self.a[key] = value
         elif len(key) == 2:
-            interval = key[0]
-            element = key[1]
+            interval = index(key[0])
+            element = index(key[1])
             self.a[interval * self.n + element] = value
         else:
             raise IndexError("too many indices for IntervalArray")
